@@ -120,6 +120,22 @@ def oracle_invariants(case):
     require(abs(hs[0]) <= 1e-12 and abs(hs[-1] - 1) <= 1e-12 + slack,
             '%s(theta=%r): partial_derivative(0,v)=%r, partial_derivative(1,v)=%r at v=%r (must be 0 and 1)'
             % (fam, th, hs[0], hs[-1], v0), tag='h-limits')
+    # the scalar form of the same function: partial_derivative_scalar(u, v) is partial_derivative([[u, v]]), also when
+    # the end points of the u-range are written as integers (0, 1) or as an integer array
+    k0 = case['probe'] % n
+    hs1 = float(np.ravel(value(cop.partial_derivative_scalar, float(U[k0]), float(V[k0]), what='partial_derivative_scalar'))[0])
+    require(abs(hs1 - h[k0]) <= 1e-13 * abs(h[k0]) + 1e-300, '%s(theta=%r): partial_derivative_scalar(%r, %r)=%r but partial_derivative gives %r'
+            % (fam, th, U[k0], V[k0], hs1, h[k0]), tag='h-scalar')
+    for u_int, what_ in ((1, 'the int 1'), (0, 'the int 0'), (np.array([0, 1, 1]), 'an integer array')):
+        u_flt = np.asarray(u_int, dtype=float)
+        kd_, got_i = call(cop.partial_derivative_scalar, u_int, v0, allow=(TypeError, ValueError), what='partial_derivative_scalar')
+        if kd_ == 'exc':
+            continue                     # refusing an integer argument is not a wrong value
+        want_f = np.ravel(value(cop.partial_derivative_scalar, u_flt, v0, what='partial_derivative_scalar'))
+        got_i = np.ravel(np.asarray(got_i, dtype=float))
+        require(got_i.shape == want_f.shape and np.allclose(got_i, want_f, rtol=1e-12, atol=1e-300, equal_nan=True),
+                '%s(theta=%r): partial_derivative_scalar(u, v=%r) with u given as %s is %r, with the same u as float %r'
+                % (fam, th, v0, what_, got_i, want_f), tag='h-scalar-int')
     # row independence
     k = case['probe'] % n
     for meth, full in (('partial_derivative', h), ('probability_density', c)):
